@@ -268,5 +268,127 @@ fn main() {
             }
         }
     }
+
+    // ---- audit block (notes/C01.md "Audit matrix") -------------------------------------------------
+    // (a) window = 0 (rejected on a non-empty series: C01_window0, C01_fdiff_window0; empty result on an empty one),
+    // (b) min_periods above the window (C01_min_periods_above_window: acts as min_periods = window),
+    // (c) integer output element types i32 / Option<i32> (the closures end in `res.cast()`; NaN -> 0 resp. None),
+    // (d) the plain family on a series holding a NaN (C01_plain_nan_poisons / C01_plain_never_drifts_refuted), incl. the
+    //     two witnesses of the refutation and the vector of the repository's own test_ts_mean.
+    {
+        let audit_series: Vec<Vec<f64>> = vec![vec![], vec![1.0], vec![1.0, f64::NAN, 2.0], vec![0.5, 2.0, -1.0, f64::NAN, 4.0, 5.5]];
+        for xs in audit_series.iter() {
+            let len = xs.len();
+            let xs_coq = coq_list(xs, |x| coq_f64(*x));
+            let nt = if len == 0 { " nt=0" } else { "" };
+            // (a)
+            for mp in [None, Some(0usize), Some(2)] {
+                let mp_coq = coq_opt(&mp, |m| coq_nat(*m));
+                let w = 0usize;
+                for (fi, fname) in FNS.iter().enumerate() {
+                    let fi_ = fi as i32;
+                    let cmp = "float:1e-9,4e4";
+                    let tg = |be: &str| format!("fn=ts_v{} ty=f64 be={} len={} wrel=zero mp={:?} style=audit{}", fname, be, len, mp, nt);
+                    let ds = |be: &str| format!("fn=ts_v{} ty=f64 be={} w=0 mp={:?} xs={:?}", fname, be, mp, xs);
+                    em.case(cmp, &tg("vec"), &ds("vec"),
+                        || format!("(run_feat_f {} true {} {} {})", fi, coq_nat(w), mp_coq, xs_coq),
+                        || out_cells(guarded(|| call_valid!(fi_, xs, w, mp, Vec<f64>))));
+                    em.case(cmp, &tg("vec_to"), &ds("vec_to"),
+                        || format!("(run_feat_f {} true {} {} {})", fi, coq_nat(w), mp_coq, xs_coq),
+                        || out_cells(guarded(|| call_valid_to!(fi_, xs, w, mp))));
+                    em.case(cmp, &tg("deque"), &ds("deque"),
+                        || format!("(run_feat_f {} false {} {} {})", fi, coq_nat(w), mp_coq, xs_coq),
+                        || { let d: VecDeque<f64> = vh::wrapped_deque(xs);
+                             out_cells(guarded(|| call_valid!(fi_, d, w, mp, Vec<f64>))) });
+                    em.case(cmp, &tg("plain"), &ds("plain"),
+                        || format!("(run_feat_p {} true {} {} {})", fi, coq_nat(w), mp_coq, xs_coq),
+                        || out_cells(guarded(|| call_plain!(fi_, xs, w, mp, Vec<f64>))));
+                }
+                // fractional differences at window 0: index body asserts, iterator body underflows (`window - 1`)
+                em.case("float:1e-9,1e3", &format!("fn=ts_fdiff be=vec len={} wrel=zero style=audit{}", len, nt),
+                    &format!("fn=ts_fdiff be=vec d=0.5 w=0 xs={:?}", xs),
+                    || format!("(run_fdiff_p true {} {} {})", coq_f64(0.5), coq_nat(0), xs_coq),
+                    || out_cells(guarded(|| { let r: Vec<f64> = xs.ts_fdiff(0.5, 0); r })));
+                em.case("float:1e-9,1e3", &format!("fn=ts_vfdiff ty=f64 be=vec len={} wrel=zero style=audit{}", len, nt),
+                    &format!("fn=ts_vfdiff ty=f64 be=vec d=0.5 w=0 mp={:?} xs={:?}", mp, xs),
+                    || format!("(run_vfdiff_f true {} {} {} {})", coq_f64(0.5), coq_nat(0), mp_coq, xs_coq),
+                    || out_cells(guarded(|| { let r: Vec<f64> = xs.ts_vfdiff(0.5, 0, mp); r })));
+                em.case("float:1e-9,1e3", &format!("fn=ts_fdiff be=optview len={} wrel=zero style=audit{}", len, nt),
+                    &format!("fn=ts_fdiff be=optview d=0.5 w=0 xs={:?}", xs),
+                    || format!("(run_fdiff_p false {} {} {})", coq_f64(0.5), coq_nat(0), xs_coq),
+                    || { use tevec::prelude::Vec1View;
+                         let xl: &'static Vec<f64> = Box::leak(Box::new(xs.clone()));
+                         out_cells(guarded(|| { let r: Vec<f64> = xl.opt().ts_fdiff(0.5, 0); r })) });
+            }
+            // (b)
+            for w in 1..=3usize {
+                for extra in [1usize, 4] {
+                    let mp = Some(w + extra);
+                    let mp_coq = coq_opt(&mp, |m| coq_nat(*m));
+                    for (fi, fname) in FNS.iter().enumerate() {
+                        let fi_ = fi as i32;
+                        let cmp = if fi >= 6 { "float:1e-7,4e4" } else { "float:1e-9,4e4" };
+                        em.case(cmp, &format!("fn=ts_v{} ty=f64 be=vec len={} wrel=any mp=above style=audit{}", fname, len, nt),
+                            &format!("fn=ts_v{} ty=f64 be=vec w={} mp={:?} xs={:?}", fname, w, mp, xs),
+                            || format!("(run_feat_f {} true {} {} {})", fi, coq_nat(w), mp_coq, xs_coq),
+                            || out_cells(guarded(|| call_valid!(fi_, xs, w, mp, Vec<f64>))));
+                        em.case(cmp, &format!("fn=ts_v{} ty=f64 be=deque len={} wrel=any mp=above style=audit{}", fname, len, nt),
+                            &format!("fn=ts_v{} ty=f64 be=deque w={} mp={:?} xs={:?}", fname, w, mp, xs),
+                            || format!("(run_feat_f {} false {} {} {})", fi, coq_nat(w), mp_coq, xs_coq),
+                            || { let d: VecDeque<f64> = vh::wrapped_deque(xs);
+                                 out_cells(guarded(|| call_valid!(fi_, d, w, mp, Vec<f64>))) });
+                    }
+                }
+            }
+        }
+        // (c) integer outputs: sum, mean, std, var on generated series (values k/4, so the truncation is exercised)
+        for (si, (xs, stags)) in series.iter().enumerate() {
+            if si % 5 != 0 || xs.len() > 40 { continue; }
+            let len = xs.len();
+            let xs_coq = coq_list(xs, |x| coq_f64(*x));
+            let nt = if len == 0 { " nt=0" } else { "" };
+            let w = 1 + (si / 5) % (len + 2);
+            let mp = match si % 3 { 0 => None, 1 => Some(0usize), _ => Some(w.min(2)) };
+            let mp_coq = coq_opt(&mp, |m| coq_nat(*m));
+            for fi in [0usize, 1, 4, 5] {
+                let fi_ = fi as i32;
+                em.case("exact", &format!("fn=ts_v{} ty=f64->i32 be=vec len={} {}{}", FNS[fi], len.min(25), stags, nt),
+                    &format!("fn=ts_v{} ty=f64->i32 be=vec w={} mp={:?} xs={:?}", FNS[fi], w, mp, xs),
+                    || format!("(run_feat_f_i32 {} true {} {} {})", fi, coq_nat(w), mp_coq, xs_coq),
+                    || match guarded(|| call_valid!(fi_, xs, w, mp, Vec<i32>)) {
+                        Ok(v) => cells_i(&v), Err(k) => vec![Cell::Panic(k)] });
+                em.case("exact", &format!("fn=ts_v{} ty=f64->opti32 be=vec len={} {}{}", FNS[fi], len.min(25), stags, nt),
+                    &format!("fn=ts_v{} ty=f64->opti32 be=vec w={} mp={:?} xs={:?}", FNS[fi], w, mp, xs),
+                    || format!("(run_feat_f_oi32 {} true {} {} {})", fi, coq_nat(w), mp_coq, xs_coq),
+                    || match guarded(|| call_valid!(fi_, xs, w, mp, Vec<Option<i32>>)) {
+                        Ok(v) => cells_opti(&v), Err(k) => vec![Cell::Panic(k)] });
+            }
+        }
+        // (d) plain family with a NaN in the data
+        let witnesses: Vec<(Vec<f64>, usize, Option<usize>)> = vec![
+            (vec![f64::NAN, 1.0], 1, Some(1)),
+            (vec![f64::NAN, 1.0, 1.0, 2.0], 2, Some(2)),
+            (vec![1.0, f64::NAN, 3.0, 4.0, 5.0], 2, Some(1)),          // features.rs test_ts_mean
+            (vec![2.0, 0.5, f64::NAN, 4.0, 5.0, 6.0, 7.5, 8.0], 3, None),
+        ];
+        for (xs, w, mp) in witnesses.iter() {
+            let (w, mp) = (*w, *mp);
+            let xs_coq = coq_list(xs, |x| coq_f64(*x));
+            let mp_coq = coq_opt(&mp, |m| coq_nat(*m));
+            for (fi, fname) in FNS.iter().enumerate() {
+                let fi_ = fi as i32;
+                let cmp = if fi >= 6 { "float:1e-7,4e4" } else { "float:1e-9,4e4" };
+                em.case(cmp, &format!("fn=ts_v{} ty=f64 be=plain len={} style=audit_nan_poison", fname, xs.len()),
+                    &format!("fn=ts_{} (plain) ty=f64 be=vec w={} mp={:?} xs={:?}", fname, w, mp, xs),
+                    || format!("(run_feat_p {} true {} {} {})", fi, coq_nat(w), mp_coq, xs_coq),
+                    || out_cells(guarded(|| call_plain!(fi_, xs, w, mp, Vec<f64>))));
+                em.case(cmp, &format!("fn=ts_v{} ty=f64 be=plain_deque len={} style=audit_nan_poison", fname, xs.len()),
+                    &format!("fn=ts_{} (plain) ty=f64 be=deque w={} mp={:?} xs={:?}", fname, w, mp, xs),
+                    || format!("(run_feat_p {} false {} {} {})", fi, coq_nat(w), mp_coq, xs_coq),
+                    || { let d: VecDeque<f64> = vh::wrapped_deque(xs);
+                         out_cells(guarded(|| call_plain!(fi_, d, w, mp, Vec<f64>))) });
+            }
+        }
+    }
     em.finish();
 }
